@@ -36,7 +36,7 @@ func checkC20(c *Ctx) {
 	ruleGroupOrderFixed(c, norm)
 	c.MinCount("R20.1", 2)
 	c.MinCount("R20.2", 3)
-	c.MinCount("R20.4", 5)
+	c.MinCount("R20.4", 2)
 	c.MinCount("R20.5", 1)
 	c.DecidedClause("handlers are grouped by a key that depends on the physical location only; every discovered handler is appended exactly once to its group (no filter, no overwrite), every handler of a group becomes a handler of the device and takes part in the type decision, one device per group; the classification functions use their slice arguments only through len() and whole-slice iteration (no element is selected by position), and the type precedence is joystick, then standard keyboard, then not playable")
 	c.DecidedClause("what a device takes from its handlers by position (ID) or by a first-wins scan (name, uniq) is taken after the group was sorted by a key that reads those fields: it does not depend on the discovery order")
@@ -313,14 +313,39 @@ func ruleEveryHandlerOnce(c *Ctx, norm, ddt *ssa.Function) {
 
 // rulePermutationInsensitive: R20.4.
 func rulePermutationInsensitive(c *Ctx) {
-	specs := [][2]string{{"", "DetermineDeviceType"}, {"", "contains"}, {"", "containsOnly"}, {"", "has"}, {"", "hasExactly"}, {"DeviceInfo", "HandlerType"}}
-	for _, sp := range specs {
+	// the classifiers: the two entry points and every function of the package they (transitively) call - whichever
+	// helpers the classification is written with
+	var fns []*ssa.Function
+	seenFn := map[*ssa.Function]bool{}
+	var grow func(f *ssa.Function)
+	grow = func(f *ssa.Function) {
+		if f == nil || seenFn[f] || len(f.Blocks) == 0 || funcPkgPath(f) != pkgInput {
+			return
+		}
+		seenFn[f] = true
+		fns = append(fns, f)
+		for _, b := range f.Blocks {
+			for _, in := range b.Instrs {
+				if ci, ok := in.(ssa.CallInstruction); ok {
+					grow(ci.Common().StaticCallee())
+				}
+				if mc, ok := in.(*ssa.MakeClosure); ok {
+					grow(mc.Fn.(*ssa.Function))
+				}
+			}
+		}
+	}
+	for _, sp := range [][2]string{{"", "DetermineDeviceType"}, {"DeviceInfo", "HandlerType"}} {
 		fn := c.P.Func(pkgInput, sp[0], sp[1])
-		key := "input." + sp[1] + "/no-positional-access"
 		if fn == nil {
-			c.Undec("R20.4", key, "-", "function not found")
+			c.Undec("R20.4", "input."+sp[1]+"/no-positional-access", "-", "function not found")
 			continue
 		}
+		grow(fn)
+	}
+	sort.Slice(fns, func(i, j int) bool { return fns[i].String() < fns[j].String() })
+	for _, fn := range fns {
+		key := "input." + fn.Name() + "/no-positional-access"
 		c.Fn(shortFn(fn))
 		bad := ""
 		for _, b := range fn.Blocks {
